@@ -392,5 +392,11 @@ class IntSet:
 
 class KDict:
     """python dict keyed by the elements of one symbolic list (key = element index k): base(k) plus an overlay of writes"""
-    def __init__(self, keys, base):
+    def __init__(self, keys, base, dom=None):
         self.keys, self.base, self.overlay = keys, base, []
+        self.dom = dom          # None: every key of the list has an entry; else k -> z3 Bool (entries present in `base`)
+
+
+class KeyStub:
+    """key list of a dict created empty: known by name only (the list the first key written belongs to)"""
+    def __init__(self, name=None): self.name = name
